@@ -44,6 +44,9 @@ type Ctl struct {
 	// follower bookkeeping and whom it included; OnLeaderEntry is called (under
 	// the controller lock) for each
 	LeaderEntries map[string]int
+	// FollowTables: number of tables a follower subscribes before it may start following
+	FollowTables int
+	timerHits    map[*time.Timer]int
 	OnLeaderEntry func(leader string, off [2]int64, data []byte, included []common.FollowerID)
 	OnLeaderJoin  func(leader string, f common.FollowerID, table string, off, earliest [2]int64)
 	// HoldScan[table]: park the next scan of the table right after it has taken
@@ -161,9 +164,25 @@ func (c *Ctl) Hook(ev string, kv ...interface{}) {
 	table, _ := kv[0].(string)
 	switch ev {
 	case "fol.timer":
-		// followers wait 30 s / 5 s for their tables before they start following
+		// Followers wait 30 s (5 s after every table that subscribes) before they
+		// start following.  The wait is cut short only once all tables have
+		// subscribed: a table that subscribes after the timer has fired is not
+		// entered into the follow message's partitions (followLeaders appends it
+		// to tables and offsets only) and is then fed by what other tables receive -
+		// a real database applies its schema well inside the wait.
 		if t, ok := kv[1].(*time.Timer); ok {
-			t.Reset(30 * time.Millisecond)
+			c.mu.Lock()
+			if c.timerHits == nil {
+				c.timerHits = map[*time.Timer]int{}
+			}
+			c.timerHits[t]++
+			hits, want := c.timerHits[t], c.FollowTables
+			c.mu.Unlock()
+			if want > 0 && hits <= want {
+				t.Reset(3 * time.Second) // still waiting for tables
+			} else {
+				t.Reset(5 * time.Millisecond)
+			}
 		}
 		return
 	case "ldr.entry":
